@@ -129,12 +129,16 @@ impl Path {
         impl WindState {
             fn close(&mut self) {
                 if let (Some(first_point), Some(current_point)) = (self.first_point, self.current_point) {
-                    self.add_edge(
-                        current_point,
-                        first_point,
-                    );
+                    // an already closed subpath has nothing left to add
+                    if current_point != first_point {
+                        self.add_edge(
+                            current_point,
+                            first_point,
+                        );
+                    }
                 }
-                self.first_point = None;
+                // like filling, continue from the start of the subpath
+                self.current_point = self.first_point;
             }
 
             // to determine containment we just need to count crossing of ray from (x, y) going to infinity
